@@ -209,6 +209,42 @@ fn mutations(name: &str, file: &[u8], rng: &mut Rng, thorough: bool) -> Vec<(Str
         }
         v.push((format!("{name}:flips"), f));
     }
+    // payload of a chunk shortened / lengthened with every enclosing size field (RIFF, ANMF)
+    // adjusted, so that the container stays well-formed around a chunk that is too short or too
+    // long for what its header promises (e.g. a raw ALPH plane shorter than width*height)
+    for &o in &offs {
+        if o + 8 > file.len() || o == 0 { continue; }
+        let n = u32::from_le_bytes(file[o + 4..o + 8].try_into().unwrap()) as usize;
+        let end = o + 8 + n + (n & 1);
+        if end > file.len() { continue; }
+        let mut sizes = vec![0usize, 1, 2, 3, n / 2, n.saturating_sub(2), n.saturating_sub(1), n + 1, n + 7];
+        sizes.sort_unstable();
+        sizes.dedup();
+        for k in sizes {
+            if k == n { continue; }
+            let mut chunk_bytes = file[o..o + 4].to_vec();
+            chunk_bytes.extend_from_slice(&(k as u32).to_le_bytes());
+            for i in 0..k { chunk_bytes.push(if i < n { file[o + 8 + i] } else { 0 }); }
+            if k & 1 == 1 { chunk_bytes.push(0); }
+            let delta = chunk_bytes.len() as i64 - (end - o) as i64;
+            let mut f = file[..o].to_vec();
+            f.extend_from_slice(&chunk_bytes);
+            f.extend_from_slice(&file[end..]);
+            // enclosing containers: RIFF at 0 and any ANMF whose payload contains this chunk
+            let fix = |f: &mut Vec<u8>, at: usize| {
+                let cur = u32::from_le_bytes(f[at + 4..at + 8].try_into().unwrap()) as i64;
+                f[at + 4..at + 8].copy_from_slice(&((cur + delta).max(0) as u32).to_le_bytes());
+            };
+            fix(&mut f, 0);
+            for &a in &offs {
+                if a + 8 <= file.len() && &file[a..a + 4] == b"ANMF" && a < o {
+                    let an = u32::from_le_bytes(file[a + 4..a + 8].try_into().unwrap()) as usize;
+                    if o < a + 8 + an { fix(&mut f, a); }
+                }
+            }
+            v.push((format!("{name}:resize_chunk@{o}={k}"), f));
+        }
+    }
     // chunk deletion / duplication / swap
     if offs.len() > 3 {
         for i in 1..offs.len() {
@@ -305,7 +341,7 @@ pub fn run(o: &Opts) -> Report {
         judge(&mut drv, &mut rep, "replay", &file);
         return rep;
     }
-    rep.rule = "corpus of valid files of every kind (simple lossless/lossy, extended, lossy+ALPH raw/lossless, libwebp lossless with palette/transforms/cache, metadata, mixed animation) x {every prefix; every chunk size field set to 13 boundary values; every fourcc replaced by 8 others; each of the 28 bytes after every chunk header set to {00,01,7f,80,ff}; random bit flips / byte replacements; chunk deletion and duplication} + crafted cross-field disagreements (ANMF vs VP8 dimensions, ALPH followed by non-VP8, over/under-subscribed code lengths, huge canvases, synthetic random-symbol VP8 key frames with boundary header fields - whole, truncated, with wrong partition sizes); every case driven through new, all accessors with two memory limits, read_image, read_frame to exhaustion twice with reset, in a checked build under catch_unwind with a time budget; plus the container parser's outcome compared with Container.openFile. distinct_nontrivial = distinct mutated byte strings".into();
+    rep.rule = "corpus of valid files of every kind (simple lossless/lossy, extended, lossy+ALPH raw/lossless, libwebp lossless with palette/transforms/cache, metadata, mixed animation) x {every prefix; every chunk size field set to 13 boundary values; every fourcc replaced by 8 others; each of the 28 bytes after every chunk header set to {00,01,7f,80,ff}; random bit flips / byte replacements; chunk deletion and duplication; every chunk's payload shortened / lengthened to 8 boundary lengths with the enclosing RIFF / ANMF sizes adjusted (a well-formed container around a chunk that is too short or too long for its own header)} + crafted cross-field disagreements (ANMF vs VP8 dimensions, ALPH followed by non-VP8, over/under-subscribed code lengths, huge canvases, synthetic random-symbol VP8 key frames with boundary header fields - whole, truncated, with wrong partition sizes); every case driven through new, all accessors with two memory limits, read_image, read_frame to exhaustion twice with reset, in a checked build under catch_unwind with a time budget; plus the container parser's outcome compared with Container.openFile. distinct_nontrivial = distinct mutated byte strings".into();
     let mut rng = Rng::new(o.seed ^ 0xC03);
     if o.thorough() || std::env::var("VERIF_BIGMEM").is_ok() {
         // canvases of 2^30 pixels and more need multi-GiB output buffers
